@@ -620,8 +620,10 @@ def boundary_sweep(S, r, cc, natref, tries=500):
            "random ones, through IBAN(validate_bban=True), validate(True) and bban.validate_national_checksum(); "
            "every other country: valid IBANs with national validation on; non-trivial = distinct BBAN with "
            "valid IBAN check digits",
-      note="published-rule equivalence proved in Lean for the ISO 7064 families (10 countries); for the other "
-           "12 the published rule is the independent reference tools/natref.py (differential check, not proof)")
+      note="published-rule equivalence proved in Lean for all 22 countries (positional Spec with the weights "
+           "written out; live layout obligations); tools/natref.py is a second, independent reading of the rules "
+           "used by the failing-input search; live_probes_reproduced is kernel-checked correspondence on "
+           "recorded inputs, not a theorem about all inputs")
 def c06(run):
     import natref
     from realops import registry_lines
@@ -709,6 +711,43 @@ def c06(run):
             i = S.iban(cc)
             ops.append(["iban.new", hx(i), "F", "T"])
             meta.append((cc, i[4:], True))
+    # the translator's probe inputs (unit vectors over every position x character, seeded random inputs)
+    # as whole BBANs: the inputs on which the kernel-checked tie `live_probes_reproduced` rests are also
+    # judged by the independent reference, so a broken tie comes with the failing input
+    import gen as _gen
+    from realops import checksum as _cs
+    by_cc = {}
+    for key, comps, expected in _gen.probe_inputs():
+        cc = key.split(":")[0]
+        if cc == "DE" or cc not in natref.NATIONAL or not key.endswith(":default"):
+            continue
+        spec = S.table[cc]
+        classes = _gen._position_classes(spec["bban_spec"])
+        b = ["A" if c == "a" else " " if c == "e" else "0" for c in classes]
+        okc = True
+        for comp, v in zip(type(_cs.algorithms[key]).accepts, comps):
+            s_, e_ = spec["positions"].get(comp.value, [0, 0])
+            if len(v) != e_ - s_ or any(ch not in _gen._class_alphabet(c) for ch, c in zip(v, classes[s_:e_])):
+                okc = False
+                break
+            b[s_:e_] = list(v)
+        s_, e_ = spec["positions"].get("national_checksum_digits", [0, 0])
+        if not okc or (e_ > s_ and (len(expected) != e_ - s_ or
+                                    any(ch not in _gen._class_alphabet(c) for ch, c in zip(expected, classes[s_:e_])))):
+            continue
+        if e_ > s_:
+            b[s_:e_] = list(expected)
+        by_cc.setdefault(cc, []).append("".join(b))
+    for cc, bs in sorted(by_cc.items()):
+        ops += registry_lines(S.banks_of(cc))
+        meta += [None] * (len(ops) - len(meta))
+        seen = set()
+        for b in bs:
+            if b in seen:
+                continue
+            seen.add(b)
+            ops.append(["bban.national", hx(cc), hx(b)])
+            meta.append((cc, b, natref.NATIONAL[cc](b)))
     reals, _ = run.correspond("national", ops)
     spec_ops, spec_meta = [], []
     for f, m, a in zip(ops, meta, reals):
@@ -765,8 +804,14 @@ def c07(run):
     methods = sorted(k[3:] for k in checksum.algorithms if k.startswith("DE:"))
     ops, meta = [], []
     per = run.scale(400, 30000)
+    import gen as _gen
+    probe_accts = {}
+    for key, comps, _e in _gen.probe_inputs():
+        if key.startswith("DE:") and len(comps) == 1 and len(comps[0]) == 10 and comps[0].isdigit() \
+                and comps[0].isascii():
+            probe_accts.setdefault(key[3:], []).append(comps[0])
     for m in methods:
-        accts = ["%010d" % n for n in lits]
+        accts = ["%010d" % n for n in lits] + sorted(set(probe_accts.get(m, [])))
         for j in range(per):
             k = r.random()
             if k < 0.55:
@@ -1282,8 +1327,10 @@ def expected_generate(S, cc, bank, account, branch):
            "lower case), combined-width bank codes with and without an explicit branch code, unknown countries; "
            "read-back of every supplied component, precise error class for over-long values, no foreign "
            "exception; non-trivial = distinct (country, components)",
-      note="padding, placement and error-class theorems proved for the model; the end-to-end glue and totality of "
-           "generate() are checked dynamically")
+      note="padding, placement and error-class theorems; generate_total (no foreign exception for any country "
+           "string and any component strings) and generate_ok (a returned IBAN is accepted and carries every "
+           "supplied component, cleaned and padded or split at combined width, at the published position) "
+           "proved for the model and discharged on the live tables")
 def c08(run):
     S = Streams(run.seed * 1000 + 8)
     r = S.r
